@@ -266,6 +266,23 @@ class SizeMonitor(Monitor):
         return [self._mutate(core, field_of(path) if path != "@" else "*", True)]
 
     def summarise(self, callee, node, binding):
+        # a helper that receives the limit as an argument (`enforce_max_length<…>(url, max_input_length)`): the
+        # parameter stands for the limit inside the helper
+        params = callee.get("params") or []
+        args = node.get("args") or []
+        if params and len(params) == len(args):
+            known = set()
+            for s in self.limit_locals.values():
+                known |= s
+            for prm, a in zip(params, args):
+                a0 = X.strip(a)
+                while isinstance(a0, dict) and a0.get("k") in ("cast", "construct") and (a0.get("e") is not None or len(a0.get("args", [])) == 1):
+                    a0 = X.strip(a0.get("e") if a0.get("e") is not None else a0["args"][0])
+                lim = isinstance(a0, dict) and ((a0.get("k") == "call" and a0.get("qname") == LIMIT_FN) or
+                                                (a0.get("k") == "ref" and a0.get("id") in known))
+                if lim:
+                    self._limit_ids(callee)
+                    self.limit_locals[callee["key"]].add(prm["id"])
         return callee["qname"] not in SHRINK_ONLY
 
     def after_call(self, core_before, core_after, callee, node, eng):
